@@ -6,6 +6,7 @@ DIRS="$*"; [ -z "$DIRS" ] && DIRS="$(ls -d seeded/*/)"
 mkdir -p build/sweep
 for d in $DIRS; do
   n="$(basename "$d")"; id="$(jq -r .property "$d/meta.json")"
+  if [ "$(jq -r '.superseded // empty' "$d/meta.json")" != "" ]; then echo "$n $id SUPERSEDED (see meta.json)"; continue; fi
   s=$(date +%s)
   sh tools/try_seed.sh "$d/patch.diff" "$id" "$B" > "build/sweep/$n.log" 2>&1
   e=$(date +%s)
